@@ -131,7 +131,8 @@ SCTP_VOID = ["bad-crc", "bad-vtag", "short-packet", "bad-chunk-length", "unknown
              "data-unused-stream-junk", "data-unused-stream-dcep-garbage", "data-unused-stream-bad-utf8",
              "data-unused-stream-middle-fragment", "data-empty-payload", "bundled-void-chunks"]
 SCTP_CHANGING = ["abort", "shutdown", "sack-lying", "forward-tsn-lying", "reconfig-reset-live", "data-live-stream-junk",
-                 "dcep-open-existing", "dcep-ack-unknown", "sack-strikes", "bundled-then-association-ends"]
+                 "dcep-open-existing", "dcep-ack-unknown", "sack-strikes", "bundled-then-association-ends",
+                 "stream-fragment-reset-reopen"]
 RTP_VOID = ["rtp-unknown-ssrc-and-pt", "rtp-short", "rtp-bad-version", "rtp-ext-wrong-lengths", "rtp-ext-two-byte",
             "rtp-padding-extremes", "rtp-csrc-extremes", "rtcp-unknown-ssrc", "rtcp-length-mismatch", "rtcp-count-mismatch",
             "rtcp-truncated", "rtcp-remb-bad-fci", "rtcp-nack-huge", "rtcp-sdes-truncated", "rtcp-bye-weird",
@@ -351,6 +352,7 @@ class HostileWorld(MediaBase):
                 return _FakeThreading.Thread()
 
         self.next_queue = None
+        self.reopened = {}
         self.batons = {}
         self.rv_decoded = 0
         self.rv_sent = 0
@@ -551,6 +553,8 @@ class HostileWorld(MediaBase):
     def on_datachannel(self, ch):
         if ch.label != "main":
             self.probes["forged_channel_announced"] += 1     # a forged DCEP OPEN on an unused stream: legitimate
+            got = self.reopened.setdefault(ch.label, [])
+            ch.on("message", lambda m, got=got: got.append(m if isinstance(m, str) else m.decode("latin1")))
             return
         self.chan["V"] = ch
         ch.on("message", lambda m: self.got["V"].append(m))
@@ -810,7 +814,7 @@ class HostileWorld(MediaBase):
         cum = getattr(v, "_last_received_tsn", 0) or 0
         rb = lambda n: bytes(r.randrange(256) for _ in range(n))   # noqa: E731
         live_sid = next(iter(getattr(v, "_data_channels", {}) or {1: None}))
-        unused_sid = 40000 + r.randrange(1000)
+        unused_sid = r.choice([40000 + r.randrange(1000)] * 4 + [65535, 65534, 30000 + r.randrange(1000)])
         changing = cls in SCTP_CHANGING
 
         def data(tsn, sid, sseq, ppid, payload, flags=3):
@@ -910,8 +914,11 @@ class HostileWorld(MediaBase):
             if cls == "data-unused-stream-dcep-garbage":
                 body = r.choice([b"", b"\x03", b"\x03\x00", b"\x02", b"\x07" + rb(5),
                                  b"\x03" + struct.pack("!BHLHH", r.randrange(256), 0, r.getrandbits(32), r.choice([0, 5, 65535]), r.choice([0, 5, 65535])) + rb(r.randrange(0, 12)),
-                                 b"\x03" + struct.pack("!BHLHH", 0, 0, 0, 2, 2) + b"\xff\xfe\xff\xfe"])
-                return sctp_packet(vt, [data(tsn, unused_sid, 0, 50, body)]), False
+                                 b"\x03" + struct.pack("!BHLHH", 0, 0, 0, 2, 2) + b"\xff\xfe\xff\xfe",
+                                 # (a request that is fine in itself, for a stream nobody may use)
+                                 b"\x03" + struct.pack("!BHLHH", r.choice([0, 1, 2, 0x80, 0x82]), 0, r.randrange(3), 4, 0) + b"edge",
+                                 b"\x03" + struct.pack("!BHLHH", 0, 0, 0, 0, 0)])
+                return sctp_packet(vt, [data(tsn, r.choice([unused_sid, unused_sid, 65535, 65534]), 0, 50, body)]), False
             if cls == "data-unused-stream-bad-utf8":
                 return sctp_packet(vt, [data(tsn, unused_sid, 0, r.choice([51, 54]), b"\xff\xfe\xc3(" + rb(4))]), False
             if cls == "data-unused-stream-middle-fragment":
@@ -1098,6 +1105,9 @@ class HostileWorld(MediaBase):
                 self.forged.pop(data, None)
                 self.probes["inject_send_failed"] += 1
             return
+        if cls == "stream-fragment-reset-reopen":
+            await self.inject_reset_reopen(k)
+            return
         if cls in SCTP_VOID or cls in SCTP_CHANGING:
             self._borrowed_tsn = False
             data, changing = self.build_sctp(cls, k)
@@ -1141,6 +1151,63 @@ class HostileWorld(MediaBase):
             self.forged.pop(data, None)
             self.probes["not_protectable"] += 1
             self.fabric.loop.call_soon(self.vconn.inject, data, context=pair.ctx["V"])
+
+    async def inject_reset_reopen(self, k):
+        """A stream's life in four datagrams from the authenticated peer: the first fragment of a message that is never
+        finished, a reset of that stream, then the stream used again (DCEP OPEN plus a message).  Nonsensical as a whole,
+        every datagram well-formed; the last two are valid traffic and must be processed normally."""
+        pair, v, p = self.pair, self.sctp["V"], self.sctp["P"]
+        # (a transport that was closed once - by an ABORT, say - has let go of its listeners for good, whatever a later
+        #  INIT does to the association underneath: only a transport the application still sees as connected is judged)
+        if not self.sctp_started or v._association_state.name != "ESTABLISHED" or v.state != "connected" or self.dead:
+            self.probes["reset_reopen_skipped"] += 1
+            return
+        r = self.rng(k)
+        vt = self.vtag()
+        sid = 20000 + r.randrange(5000)
+        label = ("reopened-%d" % (k % 100000)).encode()
+
+        def data(tsn, sseq, ppid, payload, flags=3):
+            return chunk(0, flags, struct.pack("!LHHL", tsn, sid, sseq, ppid) + payload)
+        t1 = self.fresh_tsn()
+        # the next request number the victim has not seen yet (the peer stack's own counter may lag behind by the TSNs
+        # the forger borrowed before the association started), and the peer stack's counter moved past it
+        req = (v._reconfig_response_seq + 1) & 0xFFFFFFFF
+        p._reconfig_request_seq = (req + 1) & 0xFFFFFFFF
+        reset = param(13, struct.pack("!LLL", req, p._reconfig_response_seq, t1) + struct.pack("!H", sid))
+        steps = [sctp_packet(vt, [data(t1, 0, 51, b"never finished", flags=2)]),
+                 sctp_packet(vt, [chunk(130, 0, reset)]),
+                 sctp_packet(vt, [data(self.fresh_tsn(), 0, 50, b"\x03" + struct.pack("!BHLHH", 0, 0, 0, len(label), 0) + label)]),
+                 sctp_packet(vt, [data(self.fresh_tsn(), 1, 51, b"hello-" + label)])]
+        # (after an earlier state-changing datagram - a lying FORWARD-TSN, say - the victim may rightly regard these TSNs
+        #  as out of its window: the sequence is still injected, its outcome only judged on an untouched association)
+        touched = self.sctp_changed
+        self.sctp_changed = True          # (the data clause about the main channel is not judged after this)
+        self.log.add("inject", "stream-fragment-reset-reopen", sum(map(len, steps)), True)
+        for d in steps:
+            self.forged[d] = "stream-fragment-reset-reopen"
+            try:
+                await self.loop.create_task(pair.dtls["P"]._send_data(d), context=pair.ctx["P"])
+            except Exception:  # noqa
+                self.forged.pop(d, None)
+                self.probes["inject_send_failed"] += 1
+                return
+            # (apart in time: the four datagrams are meant to arrive in this order)
+            await asyncio.sleep(r.choice([0.02, 0.05, 0.2]))
+        lossless = all(self.cfg["p2v"].get(x, 0) == 0 for x in ("drop", "dup", "reorder", "corrupt", "burst_enter", "jitter"))
+        if not lossless or touched:
+            self.probes["reset_reopen_not_judged"] += 1
+            return
+        want = label.decode()
+        ok = await self.wait(lambda: want in self.reopened and ("hello-" + want) in self.reopened[want], 20.0)
+        if not ok and not self.dead and v._association_state.name == "ESTABLISHED" and v.state == "connected" and not self.violations:
+            self.check_alive("after stream-fragment-reset-reopen")
+            if not self.dead:
+                self.violation("C05", "valid-traffic-stalled:stream-used-again-after-a-reset",
+                               "stream %d: unfinished fragment, reset, then OPEN %r and a message: channel announced: %s, message "
+                               "delivered: %s" % (sid, want, want in self.reopened, ("hello-" + want) in self.reopened.get(want, [])))
+        elif ok:
+            self.probes["stream_reused_after_reset_ok"] += 1
 
     def c08_monitor(self, k):
         """C08 wire monitor on a well-formed packet a conforming peer may put on the wire: the victim's parser must
